@@ -282,7 +282,8 @@ def run(ctx):
             continue
         sends = [y for b in t.body for y in ast.walk(b)
                  if isinstance(y, ast.Call) and
-                 U.call_name(y) == 'on_action_complete']
+                 U.call_name(y) in ('on_action_complete',
+                                    'send_error_back')]
         if not sends:
             continue
         for h in t.handlers:
@@ -291,6 +292,34 @@ def run(ctx):
                                         'on_action_complete')]
             if not again:
                 continue
+            # the handler may only be reached because the send ITSELF
+            # failed: nothing that can raise follows a send inside the
+            # protected body (otherwise a delivered result is followed by a
+            # second one when a later statement fails)
+            for snd in sends:
+                sn_ = cfg.node_of(snd)
+                body_ids = {id(y) for b in t.body for y in ast.walk(b)}
+                later = []
+                for x in cfg.reach([s_ for s_, k in sn_.succ
+                                    if k not in ('exc',)],
+                                   follow_exc=False):
+                    if x.ast is None or id(x.ast) not in body_ids:
+                        continue
+                    for y in cfg.own_nodes(x):
+                        if isinstance(y, ast.Call) and y is not snd and \
+                                U.call_name(y) not in ('warning', 'info',
+                                                       'debug', 'exception'):
+                            later.append(y)
+                r4.check(not later,
+                         ctx.construct(dr, snd, extra='nothing fallible '
+                                       'after a send inside the protected '
+                                       'block'),
+                         'a result is sent and %s follows inside the same '
+                         'try block whose handler sends an error result: '
+                         'when that later call fails the engine gets two '
+                         'results for one run'
+                         % [norm(y, 40) for y in later][:2],
+                         ctx.loc(dr, snd))
             hts = U.handler_types(h) or ['BaseException']
             own_only = all(
                 esc_declared(ctx, dr, ht) for ht in hts)
